@@ -20,6 +20,7 @@ func init() {
 		&Rule{ID: "PN-PBREQ", Doc: "pointer-typed protobuf fields are dereferenced only when the schema marks them required (or under a nil guard / through a getter)", Run: rulePNPbReq, Min: 10},
 		&Rule{ID: "PN-STDLIB", Doc: "length / provenance preconditions of ed25519 and encoding/binary calls hold on every path", Run: rulePNStdlib, Min: 8},
 		&Rule{ID: "PN-INDEX", Doc: "sign-changing or truncating integer conversions that feed an index are bounded in the source domain first", Run: rulePNIndex, Min: 2},
+		&Rule{ID: "PN-CONSTINDEX", Doc: "a slice indexed or sliced with a constant is first proved long enough", Run: rulePNConstIndex, Min: 2},
 		&Rule{ID: "PN-DIV", Doc: "integer division by a non-constant divisor is guarded by a zero test", Run: rulePNDiv, Min: 1},
 		&Rule{ID: "PN-EXPLICIT", Doc: "explicit panic calls reachable from token entry points are discharged by a named totality argument", Run: rulePNExplicit, Min: 2},
 	)
@@ -987,5 +988,98 @@ func stripLossless(p *Prog, v ssa.Value) ssa.Value {
 			return v
 		}
 		v = c.X
+	}
+}
+
+func rulePNConstIndex(p *Prog, r *Reporter) {
+	globalP = p
+	for _, fn := range p.funcsIn("biscuit", "datalog", "parser") {
+		name := p.FuncName(fn)
+		for _, b := range fn.Blocks {
+			for _, in := range b.Instrs {
+				var seq ssa.Value
+				var need int64 = -1
+				switch x := in.(type) {
+				case *ssa.IndexAddr:
+					if _, isSlice := x.X.Type().Underlying().(*types.Slice); isSlice {
+						if k, ok := constInt(x.Index); ok {
+							seq, need = x.X, k+1
+						}
+					}
+				case *ssa.Index:
+					if _, isStr := x.X.Type().Underlying().(*types.Basic); isStr {
+						if k, ok := constInt(x.Index); ok {
+							seq, need = x.X, k+1
+						}
+					}
+				case *ssa.Slice:
+					switch x.X.Type().Underlying().(type) {
+					case *types.Slice, *types.Basic:
+						for _, bnd := range []ssa.Value{x.Low, x.High} {
+							if bnd == nil {
+								continue
+							}
+							if k, ok := constInt(bnd); ok && k > 0 && k+0 > need {
+								seq, need = x.X, k
+							}
+						}
+					}
+				}
+				if seq == nil || need <= 0 {
+					continue
+				}
+				// fresh buffers of known size
+				if mk, ok := unwrap(seq).(*ssa.MakeSlice); ok {
+					if n, isC := constInt(mk.Len); isC && n >= need {
+						continue
+					}
+				}
+				if sl, ok := seq.(*ssa.Slice); ok {
+					if a, isA := sl.X.(*ssa.Alloc); isA {
+						if arr, isArr := deref(a.Type()).Underlying().(*types.Array); isArr && arr.Len() >= need {
+							continue
+						}
+					}
+				}
+				// participle's Capture contract: called with the (non-empty) list of captured token values
+				if pa, isP := seq.(*ssa.Parameter); isP && fn.Name() == "Capture" && need == 1 && pa == fn.Params[len(fn.Params)-1] {
+					r.OK(p.instrPos(in), name, "constant index 0 on "+pa.Name(), "participle contract: Capture receives at least one token value")
+					continue
+				}
+				lenD := "len(" + p.D(seq) + ")"
+				ok := false
+				for _, g := range guardsOf(b) {
+					bo, isB := g.cond.(*ssa.BinOp)
+					if !isB || p.D(bo.X) != lenD {
+						continue
+					}
+					k, isC := constInt(bo.Y)
+					if !isC {
+						continue
+					}
+					op := bo.Op
+					val := g.val
+					switch {
+					case op == token.EQL && val && k >= need, op == token.NEQ && !val && k >= need:
+						ok = true
+					case op == token.GEQ && val && k >= need, op == token.GTR && val && k+1 >= need:
+						ok = true
+					case op == token.LSS && !val && k >= need, op == token.LEQ && !val && k+1 >= need:
+						ok = true
+					case op == token.EQL && !val && k == 0 && need == 1, op == token.NEQ && val && k == 0 && need == 1:
+						ok = true
+					}
+				}
+				// strings.HasPrefix(s, "lit") proves len(s) >= len(lit)
+				for _, g := range guardsOf(b) {
+					if c, isC := g.cond.(*ssa.Call); isC && g.val && isCallTo(&c.Call, "strings.HasPrefix") && p.D(c.Call.Args[0]) == p.D(seq) {
+						if lit, isS := constString(c.Call.Args[1]); isS && int64(len(lit)) >= need {
+							ok = true
+						}
+					}
+				}
+				r.Check(ok, p.instrPos(in), name, fmt.Sprintf("constant index/bound %d on %s", need-1, normaliseD(shortD(seq))), "dominated by a length test that covers the constant", fmt.Sprintf("%s is indexed/sliced with a constant although its length is not known to be at least %d on this path (an empty or short value from a token or caller panics)", shortD(seq), need))
+			}
+		}
 	}
 }
